@@ -27,9 +27,9 @@ B = [
      "                if True:\n",
      "collector never aliases the context's arrays (always scatters)"),
     ("pandas_positional_mask", "ioos_qc/streams.py",
-     "            subset_indexes = pd.Series(0, index=self.df.index, dtype=\"bool\")\n            subset_indexes.loc[subset.index] = True\n",
-     "            subset_indexes = pd.Series(self.df.index.isin(subset.index), index=self.df.index, dtype=\"bool\")\n",
-     "PandasStream builds the row mask with isin"),
+     "            subset_indexes = pd.Series(keep, index=self.df.index, dtype=\"bool\")\n",
+     "            subset_indexes = pd.Series(np.array(keep, dtype=bool).copy(), index=self.df.index, dtype=\"bool\")\n",
+     "PandasStream copies its positional row mask"),
     ("roc_explicit_loop", "ioos_qc/qartod.py",
      "    with np.errstate(invalid=\"ignore\"):\n        flag_arr[roc > threshold] = QartodFlags.SUSPECT\n\n    # If the value is masked set the flag to MISSING\n    flag_arr[inp.mask] = QartodFlags.MISSING\n",
      "    bad = np.ma.filled(roc > threshold, False)\n    flag_arr[np.flatnonzero(bad)] = QartodFlags.SUSPECT\n\n    # If the value is masked set the flag to MISSING\n    flag_arr[np.ma.getmaskarray(inp)] = QartodFlags.MISSING\n",
